@@ -64,6 +64,13 @@ def run_case(ctx, kind, rng, idx):
         lens = [int(x) for x in rng.integers(1, 41, size=ntraj)]
     disjoint = rng.random() < 0.33
     wide = (not disjoint) and rng.random() < 0.25
+    if rng.random() < 0.015:
+        # one very long trajectory: frame numbers and counts beyond the range
+        # of the narrow integer types states are stored in
+        ntraj = min(ntraj, 3)
+        lens = lens[:ntraj]
+        lens[int(rng.integers(0, ntraj))] = int(rng.integers(33000, 70001))
+        ctx.count('long_trajectory_cases')
     trajs = []
     if wide:
         # large state ids in narrow integer types (few states visited)
